@@ -56,6 +56,7 @@ Fixpoint zseq (a : Z) (n : nat) : list Z := match n with O => [] | S n' => a :: 
 
 Section Cfg.
 Variables CS COL ROW : Z.     (* chunk size in slots; sizeof([]tsSelectRow); sizeofCache2Row of a stub row *)
+Variable FX : bool.           (* false: removeChunksNotUsedAfterUnlocked as it is; true: repaired (see rc_go) *)
 
 Definition dur (step : Z) : Z := CS * step.
 Definition cstart (step t : Z) : Z := (t / dur step) * dur step.
@@ -270,14 +271,41 @@ Definition do_invalidate (s : st) (step : Z) (times : list Z) : st :=
 
 (* removeChunksNotUsedAfterUnlocked: returns kept chunks, detached chunks, info, min access time of the kept ones *)
 Definition busy (c : chunk) : bool := (0 <? c_loading c) || negb (match c_aw c with [] => true | _ => false end).
+(* the loop of removeChunksNotUsedAfterUnlocked as written: after deleting the run [i,j) of unused chunks it
+   continues at index j of the SHORTENED slice, so the j-i chunks that followed the run are never examined
+   (they stay, and their access time is not folded into minChunkAccessTime).  l = chunks from the current
+   index on; result: chunks that stay, chunks removed, min access time of the examined ones that stay. *)
+Fixpoint span_old (t : Z) (l : list chunk) : list chunk * list chunk :=
+  match l with
+  | c :: r => if c_lat c <? t then let (a, b) := span_old t r in (c :: a, b) else ([], l)
+  | [] => ([], [])
+  end.
+Fixpoint rc_go (fuel : nat) (t : Z) (l : list chunk) (mn : Z) : list chunk * list chunk * Z :=
+  match fuel with
+  | O => (l, [], mn)
+  | S f =>
+    match l with
+    | [] => ([], [], mn)
+    | c :: r =>
+      if c_lat c <? t then
+        let (run, rest) := span_old t l in
+        let n := length run in
+        let '(k, g, m) := rc_go f t (skipn n rest) mn in
+        (firstn n rest ++ k, run ++ g, m)
+      else let '(k, g, m) := rc_go f t r (Z.min mn (c_lat c)) in (c :: k, g, m)
+    end
+  end.
+
 Definition remove_chunks (b : bucket) (t : Z) (i : info) (mn : Z) : list chunk * list chunk * info * Z :=
   let md := mode (b_play b) in
-  let kept := filter (fun c => negb (c_lat c <? t)) (b_chunks b) in
-  let gone := filter (fun c => c_lat c <? t) (b_chunks b) in
+  let '(kept, gone, mn') :=
+    if FX then (filter (fun c => negb (c_lat c <? t)) (b_chunks b), filter (fun c => c_lat c <? t) (b_chunks b),
+                fold_left (fun a c => Z.min a (c_lat c)) (filter (fun c => negb (c_lat c <? t)) (b_chunks b)) mn)
+    else rc_go (S (length (b_chunks b))) t (b_chunks b) mn in
   let n := zlen gone in
   let i' := mkInfo (addm (i_sz i) md (- fold_left (fun a c => a + c_size c) gone 0)) (i_bc i)
                    (addm (i_cs i) md (- (n * CS))) (addm (i_cc i) md (- n)) in
-  (kept, filter busy gone, i', fold_left (fun a c => Z.min a (c_lat c)) kept mn).
+  (kept, filter busy gone, i', mn').
 
 Definition remove_bucket (s : st) (b : bucket) : st :=
   let '(_, det, i, _) := remove_chunks b (2 ^ 63) (inf s) 0 in
